@@ -40,7 +40,7 @@ PROPS["C09"] = {
     "technique": "fault injection: enumeration of every single fault and pairs of faults over the logged FS operations of rapid-generated trees, differential against the fault-free run",
     "level_text": "For every generated small tree the fault space is enumerated rather than sampled: a fault-free probe run logs every FS operation (stat, open, k-th directory read, stat of an open file, n-th read); every single fault (operation x {permission, I/O, not-exist}) and every pair (exhaustive up to 400 pairs, else an evenly spaced sample of ~150) is injected under all 8 combinations of fatal-on-error x size limit x directory-handle mode, and the outcome is compared with the fault-free run of the same tree. The trees themselves are sampled by rapid.",
     "level_note": "Trusted: the in-memory FS's fault plan and operation log (harness/internal/memfs), the region rule of DESIGN Appendix A.5. Faults are injected at the fs.FS interface; kernel-level partial reads are not modelled. With fatal-on-error set, whether a file-level (non-traversal) fault is fatal is not pinned by the property and not asserted.",
-    "rule": "rapid-generated trees (<=12 nodes, depth <=3, .gitignore files, symlinks) x 1..2 fake extractors; a third of the scenarios list 2..4 PathsToExtract (tree nodes, sometimes a missing path); per tree every single fault over every logged operation (incl. the stat of listed paths) x 3 error kinds, sticky variants, plus pairs, x fatal-on-error on/off x size limit off/median x ReadDirFile on/off; one evaluation per (tree, options, fault set); non-trivial = the faulted operation was actually reached AND at least one Extract call outside the failing region is still expected; distinct by (scenario hash, options, fault set) A quarter of the whole-tree scenarios add a fault-free second scan root (before or after the faulted one) whose results count as the extractor's other results (classes scenario_with_fault_free_second_root_1/2). After the first wait that runs into the five-minute hang limit, further waits in the process are limited to 40 s so that shrinking finishes.",
+    "rule": "rapid-generated trees (<=12 nodes, depth <=3, .gitignore files, symlinks) x 1..2 fake extractors; a third of the scenarios list 2..4 PathsToExtract (tree nodes, sometimes a missing path); per tree every single fault over every logged operation (incl. the stat of listed paths) x 3 error kinds, sticky variants, plus pairs, x fatal-on-error on/off x size limit off/median x ReadDirFile on/off; one evaluation per (tree, options, fault set); non-trivial = the faulted operation was actually reached AND at least one Extract call outside the failing region is still expected; distinct by (scenario hash, options, fault set) A quarter of the whole-tree scenarios add a fault-free second scan root (before or after the faulted one) whose results count as the extractor's other results (classes scenario_with_fault_free_second_root_1/2). After the first wait that runs into the five-minute hang limit, further waits in the process are limited to 40 s so that shrinking finishes. A scan that makes more than 2^20 file-system operations on a generated tree is reported as non-terminating (the file system parks the caller beyond the budget); a scan that stops making calls and does not return is reported after the hang limit.",
     "assumptions": ["failing region of a fault = the subtree of the directory (stat/open/readdir on a directory, or an unreadable .gitignore) or the single file (open, stat of the handle, read, lazy stat)",
                     "an extractor that loses a required file to an open/fstat/read fault must be Failed, or PartiallySucceeded when it reported inventory elsewhere"],
     "legs": [{"fam": "scanfam", "run": "^TestC09$"}],
